@@ -129,7 +129,7 @@ def race(names, path, timeout):
     return answers, attempts
 
 
-def solve_text(text, timeout=10.0, keep_dir=None, name="vc", order=None, quick_first=True):
+def solve_text(text, timeout=10.0, keep_dir=None, name="vc", order=None, quick_first=True, race_all=False):
     """Run the portfolio on one self-contained SMT-LIB text.
 
     First z3-5.1.0 alone with a short budget (almost everything is decided in milliseconds); what it
@@ -142,6 +142,20 @@ def solve_text(text, timeout=10.0, keep_dir=None, name="vc", order=None, quick_f
         fh.write(text)
     attempts = []
     order = order or ["z3-5.1.0", "z3-4.8.12", "cvc5-1.0.3"]
+    if race_all:
+        answers, attempts = race(order, path, timeout)
+        if answers:
+            n = next(iter(answers))
+            res = Result(answers[n][0], n, answers[n][2], answers[n][1], attempts, path)
+        else:
+            res = Result("unknown", "", timeout, "", attempts, path)
+        if keep_dir is None:
+            try:
+                os.remove(path)
+                os.rmdir(d)
+            except OSError:
+                pass
+        return res
     first = order[0]
     budget = min(timeout, 1.5) if (quick_first and len(order) > 1) else timeout
     st, out, dt = run_solver(first, path, budget)
